@@ -60,6 +60,7 @@ CLAUSE_PROPERTY = {
     "MB_Boundaries": "C16",
     "SW_PropCoherent": "C07",
     "SW_Update": "C07",
+    "SW_LabelsFixed": "C14",
     "SW_Evals": None,
     "ME_Slots": "C07",
     "ME_Calls": "C13",
@@ -550,7 +551,15 @@ class Recorder:
             populated = set()
             for v in lab_of.values():
                 populated |= v
+            # the rows a mode is fitted from are rows of the particle pool (unit-cube coordinates as stored), not anything else
+            try:
+                pool_rows = {_row(r_) for b_ in st._history["u"] for r_ in np.asarray(b_)}
+            except Exception:
+                pool_rows = None
             for j, (data, res) in enumerate(self._stud_calls):
+                if pool_rows is not None and any(_row(row) not in pool_rows for row in data):
+                    labels.append(-1)   # fitted from points that are not particles of the pool
+                    continue
                 if not self._pred_calls:
                     labels.append(0)
                     continue
